@@ -1,16 +1,20 @@
 #!/bin/bash
-# tools/matrix.sh [pattern]   dev-only: every seeded change (seeded/<pattern>*) x all 20 checks, quick tier, in lab B.
-# Output: /tmp/matrix-full.log (one block per change). Run with nice; takes hours.
+# tools/matrix.sh <lab> [k n]   dev-only: every seeded change (the k-th of every n, default all) x all 20 checks,
+# quick tier, in lab <lab> (a tools/lab.sh copy of /repo HEAD and /verif). Output: /tmp/matrix-<lab>.log (one block
+# per change; blocks already present are skipped). tools/matrix_to_meta.py folds the logs into seeded/*/meta.json.
 set -u
-PAT=${1:-}
-/verif/tools/lab.sh B >/dev/null
-for d in /verif/seeded/${PAT}*/; do
+LAB=${1:-B}; K=${2:-0}; N=${3:-1}
+LOG=/tmp/matrix-$LAB.log
+/verif/tools/lab.sh $LAB >/dev/null
+i=0
+for d in /verif/seeded/*/; do
+  i=$((i+1)); [ $((i % N)) -eq $K ] || continue
   id=$(basename $d)
-  grep -q "^##### $id\$" /tmp/matrix-full.log 2>/dev/null && continue
+  grep -q "^##### $id\$" $LOG 2>/dev/null && continue
   st=$(python3 -c "import json;print(json.load(open('$d/meta.json')).get('status',''))")
-  { echo "##### $id"; 
+  { echo "##### $id";
     if [ -n "$st" ]; then echo "SKIPPED $st"; else
-      REPO_DIR=/tmp/lab/B/repo VERIF_DIR=/tmp/lab/B/verif /verif/tools/trymutant.sh $d/patch.diff quick 2>&1 | grep -E "DETECTED|silent|broken|BUILD-FAILED|does not apply" | cut -c1-400; fi
-    echo "##### end $id"; } >> /tmp/matrix-full.log
+      REPO_DIR=/tmp/lab/$LAB/repo VERIF_DIR=/tmp/lab/$LAB/verif /verif/tools/trymutant.sh $d/patch.diff quick 2>&1 | grep -E "DETECTED|silent|broken|BUILD-FAILED|does not apply" | cut -c1-400; fi
+    echo "##### end $id"; } >> $LOG
 done
-echo MATRIX-DONE >> /tmp/matrix-full.log
+echo MATRIX-DONE >> $LOG
